@@ -429,9 +429,18 @@ class SGen:
         if k in (9, 10):
             m = [r.random() < 0.6, r.random() < 0.7, r.random() < 0.6]
             parts = [self.ex(2) if x else ("", []) for x in m]
+            head, hcls = ("1" if m[0] else "0"), ""
+            hk = r.random()
+            if hk < 0.15:      # for (var x; …)
+                n, _ = self.var_target()
+                parts[0], head = ("var %s" % n, []), "v"
+            elif hk < 0.4:     # for (var x = e; …)
+                n, c = self.var_target()
+                js, t = self.ex(2)
+                parts[0], head, hcls = ("var %s = %s" % (n, js), t), "V", ":" + c
             a = self.stmt(d - 1)
             return ("for (%s; %s; %s) %s" % (parts[0][0], parts[1][0], parts[2][0], a[0]),
-                    ["s:for:" + "".join("1" if x else "0" for x in m)] + parts[0][1] + parts[1][1] + parts[2][1] + a[1])
+                    ["s:for:" + head + "".join("1" if x else "0" for x in m[1:]) + hcls] + parts[0][1] + parts[1][1] + parts[2][1] + a[1])
         if k == 13 and self.ctx != "G":
             if r.random() < 0.3:
                 return "return;", ["s:ret0"]
